@@ -20,6 +20,9 @@ const NODE: u8 = 5;
 #[derive(Debug, Clone, Copy)]
 pub enum Step {
     Get,
+    /// a request for a timestamp that its caller gives up on: the future is polled this many times (with a yield after each
+    /// poll) and then dropped, as a timeout, a `select!` or an aborted task do (seeded change `C11l`)
+    AbandonedGet(u8),
     /// register a remote stamp `offset_s` seconds from the wall clock, with this counter and node
     Register { offset_s: i64, counter: u16, node: u8 },
     Yield,
@@ -74,8 +77,9 @@ impl Prop for C11 {
             let n = 1 + src.below(12);
             let mut steps = vec![];
             for _ in 0..n {
-                steps.push(match src.weighted(&[6, 3, 3]) {
+                steps.push(match src.weighted(&[6, 3, 3, 2]) {
                     0 => Step::Get,
+                    3 => Step::AbandonedGet(src.below(3) as u8),
                     1 => Step::Register {
                         offset_s: if exhausting {
                             *src.pick(&[0i64, 1, 50, -3_600])
@@ -132,7 +136,7 @@ impl Prop for C11 {
 
     fn rule(&self) -> &'static str {
         "2-8 tasks sharing one datacake_node::Clock, each a script of 1-12 steps get_time | register_ts(remote at wall \
-         clock -1 h .. +100000 s, counters 0..60000, own or foreign node id) | yield, plus up to 3 cross-task barriers \
+         clock -1 h .. +100000 s, counters 0..60000, own or foreign node id) | yield | a get_time whose caller gives up after 0-2 polls, plus up to 3 cross-task barriers \
          (signal after a step / wait before a step); run on a current-thread runtime where the interleaving is fixed \
          by the generated yields, and 8 times on a 4-worker runtime (OS schedule); oracle: all returned stamps pairwise \
          distinct and carrying the node id, each task's results strictly increasing, and every get ordered after a \
@@ -190,6 +194,18 @@ async fn run(case: &Case, _sim: bool) -> Outcome {
             for s in steps {
                 match s {
                     Step::Get => log.push(Ev::Got(clock.get_time().await)),
+                    Step::AbandonedGet(polls) => {
+                        let mut fut = Box::pin(clock.get_time());
+                        for _ in 0..polls {
+                            if let std::task::Poll::Ready(ts) = futures::poll!(fut.as_mut()) {
+                                // answered before the caller gave up: an ordinary result
+                                log.push(Ev::Got(ts));
+                                break;
+                            }
+                            tokio::task::yield_now().await;
+                        }
+                        drop(fut);
+                    },
                     Step::Register { offset_s, counter, node } => {
                         // `now` honours the injected wall clock (hook H-clock) and is the real clock otherwise
                         let wall = HLCTimestamp::now(0, NODE).datacake_timestamp();
